@@ -36,6 +36,13 @@ def build_t(spec):
         return OptionalPassthrough(build_t(spec[1]), passthrough=spec[2])
     if k == "rect":
         return doubles.RecTransformer(tag=spec[1], a=spec[2], b=spec[3])
+    if k == "ttfT":
+        # a pipeline used as a transformer step (its final forecaster is not used by transform)
+        from sktime.forecasting.compose import TransformedTargetForecaster
+        from sktime.forecasting.naive import NaiveForecaster
+
+        return TransformedTargetForecaster(
+            [("t%d" % i, build_t(s)) for i, s in enumerate(spec[1])] + [("f", NaiveForecaster())])
     raise ValueError(spec)
 
 
